@@ -2,6 +2,7 @@
 // last bit) and logs texts as bytes; it performs no comparison.
 //   F32 <bits> <prec>            igris_f32toa
 //   F64 <hi32> <lo32> <prec> <fn>  fn: f64toa | ftoa
+//   Sweep32 <precs> <lo> <hi> <stride>  exhaustive range of binary32 patterns (thorough tier; logs suspects + a regular sample)
 //   Dpr <hi32> <lo32> <prec> <fn>     debug_printdec_double_prec / debug_printdec_float_prec
 //   Parse <fn> <bytes> <wantend>   fn: atof32 | atof64 | igris_strtod | strtod | atof | strtod_nof64 | atof_nof64 | binreader
 #include "common/vlog.h"
@@ -34,6 +35,31 @@ static void render_obs(Ev &e, const unsigned char *buf, const char *ret) {
     size_t n = strnlen((const char *)buf, BUFSZ); long touched = -1; for (int i = 0; i < BUFSZ; ++i) if (buf[i] != 0xA5) touched = i;
     e.bytes("text", buf, n).i("terminated", n < (size_t)BUFSZ ? 1 : 0).i("touched", touched).i("retoff", ret ? (long)(ret - (const char *)buf) : -99);
 }
+// ---- exhaustive sweeps (thorough tier): a native pre-filter only SELECTS the calls that are logged (every suspect and a
+// regular sample); the logged calls are judged by TLC like all others, so a mistake here can lower coverage but cannot
+// produce or hide an alarm for a logged call.
+static bool suspect32(float f, int prec, const unsigned char *buf) {
+    size_t n = strnlen((const char *)buf, BUFSZ); if (n >= (size_t)BUFSZ) return true;
+    for (size_t i = n + 1; i < (size_t)BUFSZ; ++i) if (buf[i] != 0xA5) return true;
+    const char *s = (const char *)buf;
+    if (f != f) return strcmp(s, "nan") != 0;
+    if (f == INFINITY || f == -INFINITY) return strcmp(s, f > 0 ? "+inf" : "-inf") != 0;
+    size_t i = 0; bool neg = false; if (s[i] == '-') { neg = true; ++i; }
+    long double v = 0; size_t id = 0, fd = 0;
+    for (; s[i] >= '0' && s[i] <= '9'; ++i, ++id) v = v * 10 + (s[i] - '0');
+    if (!id) return true;
+    long double unit = 1;
+    if (s[i] == '.') { ++i; long double sc = 1; for (; s[i] >= '0' && s[i] <= '9'; ++i, ++fd) { sc /= 10; v += (s[i] - '0') * sc; } if (!fd) return true; unit = sc; }
+    if (i != n) return true;
+    if (prec >= 0 && prec <= 10 ? fd != (size_t)prec : fd > 10) return true;
+    unsigned bits; memcpy(&bits, &f, 4); int ex = (int)((bits >> 23) & 0xff); long double ulp = ldexpl(1.0L, ex ? ex - 150 : -149);
+    long double x = f < 0 ? -(long double)f : (long double)f;
+    if (neg && !(bits >> 31)) return true;
+    if (!neg && (bits >> 31) && v != 0) return true;
+    long double err = v > x ? v - x : x - v;
+    return err > (1.0L - 1e-9L) * (unit + 4 * ulp);   // long double carries 64 bits: the margin covers its own rounding
+}
+
 int main(int argc, char **argv) {
     return run(argc, argv, [&](const std::vector<std::string> &t) {
         if (t[0] == "R") { Ev e("Reset"); e.end(); return; }
@@ -54,6 +80,20 @@ int main(int argc, char **argv) {
             if (t[4] == "dprint_float") { debug_printdec_float_prec((float)d, prec); dec32(e, "x_", (float)d); dec32(e, "y_", (float)d); }
             else { debug_printdec_double_prec(d, prec); dec64(e, "x_", d); dec64(e, "y_", d); }
             e.bytes("text", dbg.data(), dbg.size()).i("terminated", 1).i("touched", (long)dbg.size()).i("retoff", 0); e.end();
+        } else if (t[0] == "Sweep32") {   // Sweep32 <precs> <lo> <hi> <stride>: every binary32 pattern in [lo, hi) x every listed precision
+            auto precs = list(t[1]); unsigned long long lo = (unsigned long long)num(t[2]), hi = (unsigned long long)num(t[3]), stride = (unsigned long long)num(t[4]);
+            unsigned long long count = 0, suspects = 0; unsigned char *buf = (unsigned char *)malloc(BUFSZ);
+            for (unsigned long long b = lo; b < hi; ++b) {
+                if ((b & 4095) == 0) alarm(2);
+                unsigned bits = (unsigned)b; float f; memcpy(&f, &bits, 4);
+                for (auto p : precs) {
+                    memset(buf, 0xA5, BUFSZ); char *r = igris_f32toa(f, (char *)buf, (int8_t)p); ++count;
+                    bool sus = suspect32(f, (int)p, buf);
+                    if (sus) ++suspects;
+                    if ((sus && suspects <= 5000) || count % stride == 0) { Ev e("Render"); e.str("fn", "f32toa").i("prec", (long)p); dec32(e, "x_", f); dec32(e, "y_", f); render_obs(e, buf, r); e.end(); }
+                }
+            }
+            free(buf); Ev e("SweepDone"); e.i("calls_lo", (long)(count % 1000000)).i("calls_m", (long)(count / 1000000)).i("suspects", (long)(suspects > 2000000000ULL ? 2000000000ULL : suspects)); e.end();
         } else if (t[0] == "Parse") {
             const std::string &fn = t[1]; auto tx = blist(t[2]); int wantend = (int)num(t[3]);
             char *s = (char *)malloc(tx.size() + 1); memcpy(s, tx.data(), tx.size()); s[tx.size()] = 0; char *end = (char *)-1; char **pe = wantend ? &end : 0;
